@@ -174,6 +174,9 @@ fn faulted_run(ctx: &mut Ctx, key_seed: u64, ops: &[Op], k: u64) -> Result<(), (
                 }
                 s2.reopen().map_err(|fl| (format!("rest:{}", fl.sig), fl.detail))?;
                 s2.check("final").map_err(|fl| (format!("rest-final:{}", fl.sig), fl.detail))?;
+                if k % 53 == 7 {
+                    ctx.sample(|| json!({"kind":"fault","ops":ops::ops_to_json(ops),"failed_storage_op_index":k,"failed_op":format!("{}.{}", STORE_NAMES[d.store], d.kind),"during_call":format!("#{i} {:?}", op),"call_result":fl.sig,"verdict":"Err returned; reopen gave the before-or-after state; rest of history ok"}));
+                }
                 return Ok(());
             }
         }
@@ -408,7 +411,6 @@ fn run_case(ctx: &mut Ctx, id: u64) {
                 }
             }
         }
-        ctx.sample(|| json!({"kind":"exhaustive-chunk","prefix":prefix.iter().map(|x| gen::SYMBOL_NAMES[*x as usize]).collect::<Vec<_>>(),"length":l}));
         return;
     }
     let d = directed();
